@@ -130,7 +130,7 @@ fn main() {
     let check = Check::new("C01", "exploration");
     check.rule("random 1-4 step sequence programs (optional `all` steps, constant and cross-alias filters on both predicate paths, and/or/not, optional partition_by incl. missing key, optional .not clause; both surface forms) rendered to VPL; streams of <=40 events over 4 types with unique ids. Every emitted match is checked by an independent validity predicate over the INPUT events: step order = arrival order, type per step, step filter true under the earlier captures, one partition value, no event satisfying the .not clause strictly between first and last. Sub-check `engine` drives the real Engine (one id per alias from the emitted fields); `direct` drives SaseEngine::process built through the public compiler functions and validates the whole stack incl. every event of an `all` step. Non-trivial = >=1 match of a >=2-step pattern with a cross-alias filter, partition, not-clause or `all`.");
     check.assume("filters are evaluated by the harness only within one type (int/int, float/float, str/str) with all referenced fields present; self-referencing Kleene filters are C03's domain and not generated");
-    check.explore("engine", strat, 5_000, 80_000, run_engine);
-    check.explore("direct", strat, 5_000, 80_000, run_direct);
+    check.explore("engine", strat, 12_000, 120_000, run_engine);
+    check.explore("direct", strat, 12_000, 120_000, run_direct);
     check.finish();
 }
